@@ -87,9 +87,9 @@ func genCases(seed int64, tier string) []core.Case {
 		}
 	}
 	if tier == "thorough" {
-		add("archives", "", 96, 150)
-		add("plugins", "", 32, 150)
-		add("mutants", "", 40, 150)
+		add("archives", "", 80, 150)
+		add("plugins", "", 24, 150)
+		add("mutants", "", 32, 150)
 		add("download", "", 8, 63)
 		add("limits", "", 8, 26)
 		add("update", "", 8, 40)
